@@ -21,6 +21,8 @@
      idle     keep-alive, waiting for the next request          (dAt: a new request arrives at that time)
      partial  request line + part of the headers received      (dAt: the rest arrives at that time)
      sleep    handler running, rem ticks left (Inf = never returns); stub = swallows CancelledError
+              (dAt: the client sends ANOTHER request on the same keep-alive connection at that time -
+               pipelined if the first is still running, or after its response)
      stream   handler has sent the headers and part of the body, rem ticks left
      body     handler blocked reading a request body that never completes
      ws       websocket open; the on_shutdown handler closes it iff g.appCloses; reply = peer answers the close
@@ -35,11 +37,13 @@
                        transport stays open until Server.shutdown()          (named deviation)
      CancelLostConnHandler  FALSE = the code as it is: shutdown() cannot wait for / cancel the handler of a
                        lost connection after the first timeout (_task_handler is None)    (named deviation)
-     PreShutdownCloses, GraceWait, SecondWait                                 (self-test mutants)      *)
+     PreShutdownCloses, PreShutdownMarksActive, GraceWait, SecondWait         (self-test mutants;
+                       PreShutdownMarksActive FALSE = pre_shutdown() skips connections that are serving a
+                       request instead of setting them to close upon completion)                       *)
 EXTENDS Naturals, FiniteSets, TLC
 
 CONSTANTS Conns, T, MaxD, WsT, Durs, Inf, DeliverTimes, MaxTime,
-          CloseIdleAtOnce, CancelLostConnHandler, PreShutdownCloses, GraceWait, SecondWait
+          CloseIdleAtOnce, CancelLostConnHandler, PreShutdownCloses, PreShutdownMarksActive, GraceWait, SecondWait
 
 VARIABLES now, rpc, conn, g
 vars == <<now, rpc, conn, g>>
@@ -50,6 +54,7 @@ NoD == 1000
 Conn0(kind, rem, stub, reply, dAt) ==
     [kind |-> kind, ph |-> IF kind \in {"idle", "partial"} THEN "waiting" ELSE "run",
      rem |-> rem, stub |-> stub, reply |-> reply, dAt |-> dAt, dDone |-> FALSE,
+     queued |-> "no",        \* a complete pipelined request waits in _messages: no | early | late (after pre-shutdown)
      closeF |-> FALSE, forceF |-> FALSE, open |-> kind # "lost", sd |-> "none", dl |-> NoTime,
      \* history
      cancelAt |-> NoTime, endAt |-> NoTime, closedAt |-> NoTime, lateStart |-> FALSE,
@@ -58,6 +63,7 @@ Conn0(kind, rem, stub, reply, dAt) ==
 Placements ==
     {Conn0(k, Inf, FALSE, FALSE, d) : k \in {"idle", "partial"}, d \in DeliverTimes \cup {NoD}}
     \cup {Conn0(k, r, FALSE, FALSE, NoD) : k \in {"sleep", "stream"}, r \in Durs}
+    \cup {Conn0("sleep", r, FALSE, FALSE, d) : r \in Durs \ {Inf}, d \in DeliverTimes}
     \cup {Conn0("sleep", Inf, TRUE, FALSE, NoD)}
     \cup {Conn0("lost", r, FALSE, FALSE, NoD) : r \in Durs}
     \cup {Conn0("body", Inf, FALSE, FALSE, NoD)}
@@ -83,17 +89,21 @@ Finish(r) ==
     LET r1 == [r EXCEPT !.endAt = now, !.lostResp = ~r.open /\ r.kind # "lost"] IN
     IF r.closeF \/ r.forceF
     THEN (IF r.forceF THEN [r1 EXCEPT !.ph = "done"] ELSE Closed([r1 EXCEPT !.ph = "done"]))
+    ELSE IF r.queued # "no"                     \* keep-alive and a pipelined request is waiting: handle it
+    THEN [r1 EXCEPT !.ph = "run", !.rem = 1, !.queued = "no", !.lateStart = r.queued = "late"]
     ELSE [r1 EXCEPT !.ph = "waiting"]          \* keep-alive: wait for the next request
 
 \* network: the bytes that complete a request arrive           (data_received)
 Deliver(c) ==
     /\ Pending(c)
     /\ LET r == conn[c]
-           accepted == r.open /\ r.ph = "waiting" /\ ~r.closeF /\ ~r.forceF
+           live == r.open /\ ~r.closeF /\ ~r.forceF         \* data_received() does not drop the bytes
+           late == rpc \notin {"stopSites", "sleep0", "preShutdown"}
        IN conn' = [conn EXCEPT ![c] =
-                     IF accepted
-                     THEN [r EXCEPT !.dDone = TRUE, !.ph = "run", !.rem = 1,
-                                    !.lateStart = rpc \notin {"stopSites", "sleep0", "preShutdown"}]
+                     IF live /\ r.ph = "waiting"
+                     THEN [r EXCEPT !.dDone = TRUE, !.ph = "run", !.rem = 1, !.lateStart = late]
+                     ELSE IF live /\ r.ph = "run" /\ r.kind = "sleep"
+                     THEN [r EXCEPT !.dDone = TRUE, !.queued = IF late THEN "late" ELSE "early"]
                      ELSE [r EXCEPT !.dDone = TRUE]]
     /\ UNCHANGED <<now, rpc, g>>
 
@@ -123,7 +133,7 @@ PreShutdown ==
                   ELSE IF r.ph = "waiting"
                        THEN LET r1 == [r EXCEPT !.closeF = TRUE, !.ph = "done", !.idleAtPre = TRUE]
                             IN IF CloseIdleAtOnce THEN Closed(r1) ELSE r1
-                       ELSE [r EXCEPT !.closeF = TRUE]]
+                       ELSE IF PreShutdownMarksActive THEN [r EXCEPT !.closeF = TRUE] ELSE r]
     /\ rpc' = "signal"
     /\ g' = [g EXCEPT !.sigDl = now + g.D,
                       !.wsTodo = IF g.appCloses THEN {c \in Conns : conn[c].kind = "ws"} ELSE {}]
@@ -232,6 +242,10 @@ SignalBegun == rpc \notin {"stopSites", "sleep0", "preShutdown"}
 
 \* after pre-shutdown no request that was not already completely received starts a handler
 NoNewRequests == \A c \in Conns : ~conn[c].lateStart
+
+\* docs step 2 "(and set active ones to close upon completion)": once on_shutdown has begun no connection
+\* goes back to waiting for a next request
+ClosedOnCompletion == SignalBegun => \A c \in Conns : conn[c].ph # "waiting"
 
 \* docs step 2 precedes step 3: a connection idle at pre-shutdown is closed when on_shutdown begins
 IdleClosedAtOnce == SignalBegun => \A c \in Conns : conn[c].idleAtPre => ~conn[c].open
